@@ -477,22 +477,6 @@ func (r *collection) removeLocked(typeKey TypeKey) {
 
 	delete(r.services, typeKey)
 
-	// A removed interface of a multi-As registration no longer shares the
-	// instance built through its siblings
-	for _, alias := range descriptor.aliases {
-		if alias == descriptor {
-			continue
-		}
-		remaining := make([]*Descriptor, 0, len(alias.aliases))
-		for _, a := range alias.aliases {
-			if a != descriptor {
-				remaining = append(remaining, a)
-			}
-		}
-		alias.aliases = remaining
-	}
-	descriptor.aliases = nil
-
 	for i, d := range r.allDescriptors {
 		if d == descriptor {
 			r.allDescriptors = append(r.allDescriptors[:i:i], r.allDescriptors[i+1:]...)
